@@ -1,4 +1,4 @@
-//! K-CHOOSE-ALG (bounded: preference lists of 0..=3 entries over {ES256, RS256, EdDSA, ES384}):
+//! K-CHOOSE-ALG (bounded: preference lists of 0..=3 entries over {public-key, unknown type} x {ES256, RS256, EdDSA, ES384}):
 //! C02 "the first entry of the preference list that the authenticator supports; none => fails".
 use coset::iana::Algorithm;
 use passkey_authenticator::{Authenticator, UserCheck, UserValidationMethod};
@@ -25,8 +25,8 @@ fn any_alg() -> Algorithm {
         _ => Algorithm::ES384,
     }
 }
-fn param(alg: Algorithm) -> PublicKeyCredentialParameters {
-    PublicKeyCredentialParameters { ty: PublicKeyCredentialType::PublicKey, alg }
+fn param(public_key: bool, alg: Algorithm) -> PublicKeyCredentialParameters {
+    PublicKeyCredentialParameters { ty: if public_key { PublicKeyCredentialType::PublicKey } else { PublicKeyCredentialType::Unknown }, alg }
 }
 
 #[kani::proof]
@@ -36,13 +36,15 @@ fn choose_algorithm_first_supported() {
     let n: usize = kani::any();
     kani::assume(n <= 3);
     let algs = [any_alg(), any_alg(), any_alg()];
-    let params = [param(algs[0]), param(algs[1]), param(algs[2])];
+    let pk: [bool; 3] = kani::any();
+    let params = [param(pk[0], algs[0]), param(pk[1], algs[1]), param(pk[2], algs[2])];
     let r = auth.choose_algorithm(&params[..n]);
-    // the authenticator supports exactly ES256 (Authenticator::new)
+    // the authenticator supports exactly public-key credentials with ES256 (Authenticator::new); an entry of an unknown
+    // type is not a supported entry
     let mut has = false;
     let mut i = 0;
     while i < n {
-        if algs[i] == Algorithm::ES256 { has = true; }
+        if pk[i] && algs[i] == Algorithm::ES256 { has = true; }
         i += 1;
     }
     if has {
